@@ -222,9 +222,42 @@ def main(argv=None):
     return run_check(mod, modname, prop, tier, seed, jobs)
 
 
+def shard_replay_fails(prop, sr):
+    """Run one shard in a fresh interpreter; True iff it reports a violation with the recorded cause."""
+    import subprocess
+    import tempfile
+    fd, path = tempfile.mkstemp(prefix="lena-verif-shard-", suffix=".json")
+    try:
+        with os.fdopen(fd, "w") as f:
+            json.dump({"shard_replay": sr, "case": None}, f)
+        p = subprocess.run([sys.executable, "-m", "mc.core", prop, "--replay", path], cwd=VERIF,
+                           stdout=subprocess.DEVNULL, stderr=subprocess.DEVNULL)
+        return p.returncode == 1
+    finally:
+        os.remove(path)
+
+
+def do_shard_replay(mod, prop, rec, path):
+    sr = rec["shard_replay"]
+    res = mod.run_shard(sr["shard"], sr["tier"])
+    for ckey, (cnt, v) in res.viol.items():
+        if ckey == sr["cause_key"]:
+            print("replayed violation (shard %s re-enumerated from a fresh interpreter): cause=%s"
+                  % (json.dumps(sr["shard"]), ckey))
+            print("  case     = %s" % json.dumps(jsonable(v.get("case")))[:2000])
+            print("  observed = %s" % json.dumps(jsonable(v.get("observed")))[:2000])
+            print("  expected = %s" % json.dumps(jsonable(v.get("expected")))[:2000])
+            print("VIOLATION property=%s replay=%s" % (prop, os.path.abspath(path)))
+            return 1
+    print("replay: property %s holds on this shard" % prop)
+    return 0
+
+
 def do_replay(mod, prop, path):
     with open(path) as f:
         rec = json.load(f)
+    if isinstance(rec, dict) and rec.get("shard_replay"):
+        return do_shard_replay(mod, prop, rec, path)
     case = rec["case"] if isinstance(rec, dict) and "case" in rec else rec
     viols = mod.replay(case)
     if viols:
@@ -324,6 +357,7 @@ def run_check(mod, modname, prop, tier, seed, jobs):
     maxima = {}
     samples_by_shard = []
     viol = collections.OrderedDict()
+    viol_shard = {}
     for k in sorted(packed):
         pk = packed[k]
         evaluations += pk["evaluations"]
@@ -344,6 +378,7 @@ def run_check(mod, modname, prop, tier, seed, jobs):
                 viol[ckey][0] += cnt
             else:
                 viol[ckey] = [cnt, v]
+                viol_shard[ckey] = k
     distinct_nontrivial = nt_count + len(nt_keys)
 
     samples = []
@@ -367,6 +402,8 @@ def run_check(mod, modname, prop, tier, seed, jobs):
     known_hit = collections.OrderedDict()
     fresh = []
     for ckey, (cnt, v) in viol.items():
+        v["_shard"] = viol_shard.get(ckey)
+        v["_ckey"] = ckey
         hit = None
         for e in known:
             if matches(e.get("signature"), v.get("cause")):
@@ -387,11 +424,24 @@ def run_check(mod, modname, prop, tier, seed, jobs):
         os.makedirs(rdir, exist_ok=True)
         for num, (cnt, v) in enumerate(fresh[:10]):
             # every failure is re-executed once from its recorded case before it is reported
+            shard_k, ckey = v.pop("_shard", None), v.pop("_ckey", None)
             try:
                 again = mod.replay(v["case"])
             except Exception:
                 traceback.print_exc()
                 again = None
+            if not again and shard_k is not None:
+                # The case alone does not fail: the failure may depend on what the worker had done
+                # before (state kept at module or class level by the code under test). It is trusted
+                # only if the shard that found it fails again, with the same cause, when it is
+                # enumerated from a fresh interpreter; that is then the replayable artefact.
+                sr = {"shard": jsonable(shard_list[shard_k]), "tier": tier, "cause_key": ckey}
+                if shard_replay_fails(prop, sr):
+                    v["shard_replay"] = sr
+                    v["note"] = ((v.get("note") or "") + " [the case alone does not fail; the failure needs the "
+                                 "cases enumerated before it in this shard, replay re-runs the shard from a "
+                                 "fresh interpreter]").strip()
+                    again = True
             if not again:
                 sys.stderr.write("internal error: violation did not reproduce on replay: %s\n"
                                  % json.dumps(v)[:3000])
